@@ -72,7 +72,7 @@ func (g *gen1) do(op string) string {
 		if out != "bad-op" {
 			g.won[idx()] = false
 		}
-	case "resetl", "stepdown", "crash":
+	case "resetl", "stepdown", "crash", "gresetl":
 		if out != "bad-op" {
 			g.won[idx()] = false
 		}
@@ -225,6 +225,36 @@ func gen(w *world, t *trace.W, r *rng.R, maxOps int, malformed bool, st *stats) 
 		if c.pending != nil {
 			g.do(fmt.Sprintf("finish %d %s %s", i, pickFault(r), pickRv(r)))
 		}
+		if c.closing != nil {
+			g.do(fmt.Sprintf("rfinish %d %s", i, pickRv(r)))
+		}
+	}
+}
+
+func pickClose(r *rng.R, leader bool) string {
+	k := "reset"
+	if leader {
+		k = "leader"
+	}
+	if r.Bool(1, 3) {
+		return "pre " + k
+	}
+	return "post " + k
+}
+
+// closingOp: contender i has a Reset parked inside lease.Close; its other goroutines keep asking
+func (g *gen1) closingOp(i int) {
+	switch g.r.Pick(30, 20, 20, 15, 15) {
+	case 0:
+		g.do(fmt.Sprintf("rfinish %d %s", i, pickRv(g.r)))
+	case 1:
+		g.do(fmt.Sprintf("tso %d", i))
+	case 2:
+		g.do(fmt.Sprintf("isleader %d", i))
+	case 3:
+		g.do(fmt.Sprintf("check %d", i))
+	case 4:
+		g.do(fmt.Sprintf("write %d %s none", i, g.writeKind()))
 	}
 }
 
@@ -281,7 +311,23 @@ func (g *gen1) takeover(malformed bool) {
 	g.allRequests(b, false)
 	lease := len(w.leases)
 	steppedDown := false
-	switch v := r.Intn(5); {
+	switch v := r.Intn(6); {
+	case v == 5: // step-down whose Revoke is applied at once but answered late: B may win inside the window
+		g.do(fmt.Sprintf("gresetl %d post leader", a))
+		steppedDown = true
+		g.allRequests(a, false)
+		g.do(fmt.Sprintf("observe %d", b))
+		g.do(fmt.Sprintf("campaign %d %d - none rv1", b, r.Range(30, 90)))
+		g.allRequests(a, false)
+		g.do(fmt.Sprintf("rfinish %d rv1", a))
+		g.do(fmt.Sprintf("stepdown %d rv1", a))
+		if g.won[b] {
+			g.do(fmt.Sprintf("write %d ts none", b))
+			g.do(fmt.Sprintf("enable %d", b))
+		}
+		g.allRequests(a, false)
+		g.allRequests(b, false)
+		return
 	case v == 0: // local expiry, then the server side
 		g.do(fmt.Sprintf("clock %d %d", a, ca.clock+int64(ttl)+int64(r.Range(1, 50))))
 		g.allRequests(a, false)
@@ -388,8 +434,17 @@ func (g *gen1) faithfulOp(used map[[2]int]bool) {
 		}
 		return
 	}
+	if c.closing != nil {
+		g.closingOp(i)
+		return
+	}
 	cacheSelf := c.m.GetLeader().GetMemberId() == uint64(c.member)
 	tsoInit := c.alloc.IsInitialize()
+	if r.Bool(1, 25) && ls.VerifLease().Has {
+		// a resignation whose Revoke is slow: the step-down (ResetLeader) inside a term, a plain Reset outside
+		g.do(fmt.Sprintf("gresetl %d %s", i, pickClose(r, g.won[i])))
+		return
+	}
 	if !g.won[i] {
 		if cacheSelf || tsoInit {
 			// an interrupted step-down is completed before anything else (as the deferred calls do)
@@ -499,6 +554,14 @@ func (g *gen1) malformedOp() {
 	setClock(c)
 	if c.pending != nil && r.Bool(1, 2) {
 		g.do(fmt.Sprintf("finish %d %s %s", i, pickFault(r), pickRv(r)))
+		return
+	}
+	if c.closing != nil && r.Bool(1, 2) {
+		g.closingOp(i)
+		return
+	}
+	if r.Bool(1, 20) {
+		g.do(fmt.Sprintf("gresetl %d %s", i, pickClose(r, r.Bool(1, 2))))
 		return
 	}
 	anyKey := func() string {
